@@ -100,9 +100,18 @@ def expected_events(stmts, cls: str):
 
 
 def real_parse_flat(b: bytes, **kw):
+    """Events of the real generic flat parse; a parse that RAISES ends the list with a pseudo-statement `!ExceptionName`
+    (so that every oracle comparing with an expected list fails on it, instead of the exception escaping into the harness)."""
+    import common
     from pyjelly.integrations.generic.parse import parse_jelly_flat
 
-    return list(parse_jelly_flat(io.BytesIO(b), **kw))
+    out = []
+    try:
+        for ev in parse_jelly_flat(io.BytesIO(b), **kw):
+            out.append(ev)
+    except Exception as e:  # noqa: BLE001
+        out.append(common.ParseFailure((common.FailureMarker(type(e).__name__),)))
+    return out
 
 
 def spec_line(b: bytes, delimited: bool) -> str:
@@ -184,6 +193,7 @@ def check_C05(ctx: Ctx) -> None:
     _c05_term_level_directed(ctx, r)
     _c05_stream_level(ctx, r)
     _c05_row_level(ctx, ctx.rng("rows"))
+    _tables_larger_than_names(ctx, ctx.rng("big-tables"), ctx.n(12, 120), integrations=("generic",))
     _c05_grouped_level(ctx, ctx.rng("grouped"))
 
 
@@ -1051,6 +1061,7 @@ def _big_frame_cases(ctx: Ctx, r, n: int) -> None:
 
 def check_C04(ctx: Ctx) -> None:
     r = ctx.rng("ref")
+    _tables_larger_than_names(ctx, ctx.rng("big-tables"), ctx.n(16, 160))
     streams = []
     for i in range(ctx.n(250, 2500)):
         g = gen.G(r, n_prefixes=r.choice([2, 4, 8]), n_names=r.choice([3, 8, 16]))
@@ -1864,11 +1875,80 @@ def check_C07(ctx: Ctx) -> None:
             ctx.fail(f"rdflib: {len(frames)} frames written for {len(nonempty)} non-empty graphs/datasets", dict(opts=o.describe(), sizes=[len(st) for st in stores]))
         elif [sorted(set(_norm_text(t) for t in x)) for x in back] != [sorted(set(_norm_text(t) for t in rimpl.store_quads(st))) for st in nonempty]:
             ctx.fail("rdflib grouped serialization with a shared stream does not give the graphs/datasets back one per frame", dict(opts=o.describe()))
+    # (c, rdflib) a Dataset written with a GRAPHS-family logical type: its graphs travel as triples, ONE FRAME PER non-empty GRAPH
+    import rdflib as _rdflib
+    for _ in range(ctx.n(30, 300)):
+        o = Opts(fs=r.choice([1, 3, 250]), lt=0, gen=False, star=False, delim=True, pn=r.choice([16, 128]), pp=r.choice([0, 4]), pd=4)
+        quads = _rdf11_statements(r, "Q", o, r.randint(2, 9))
+        ds = _to_store(quads, "Q")
+        per_graph = {}
+        for s_, p_, o_, g_ in ds.quads():
+            gid = g_.identifier if isinstance(g_, _rdflib.Graph) else g_
+            per_graph.setdefault(gid, set()).add(_norm_text(rimpl.rdflib_stmt_text((s_, p_, o_))))
+        want_sets = sorted(sorted(v) for v in per_graph.values() if v)
+        so = _SO(logical_type=r.choice([3, 13]), frame_size=o.fs, params=o.real().params, lookup_preset=o.real().lookup_preset)
+        for how in ("grouped_stream_to_frames", "Dataset.serialize"):
+            ctx.case(("dataset-as-graphs", how, o.token(), stmts_text(quads)), True)
+            ctx.dist["rdflib_dataset_as_graphs"] += 1
+            try:
+                if how == "grouped_stream_to_frames":
+                    frames = list(rser.grouped_stream_to_frames((x for x in [ds]), options=so))
+                    b = impl.frames_bytes(frames, True)
+                else:
+                    b = rimpl.plugin_serialize(ds, options=so)
+                back = [sorted(set(",".join(_norm_text(t).split(",")[:3]) for t in rimpl.store_quads(g))) for g in rparse.parse_jelly_grouped(io.BytesIO(b))]
+            except Exception as e:  # noqa: BLE001
+                ctx.fail(f"rdflib {how} of a Dataset with a GRAPHS logical type raised {type(e).__name__}: {e}", dict(opts=o.describe()))
+                continue
+            if sorted(x for x in back if x) != want_sets or len([x for x in back if x]) != len(want_sets):
+                ctx.fail(f"rdflib {how}: a Dataset of {len(want_sets)} non-empty graphs written with a GRAPHS logical type comes back as "
+                         f"{len([x for x in back if x])} non-empty frames (one frame per graph expected)",
+                         dict(opts=o.describe(), graphs=[len(x) for x in want_sets], frames=[len(x) for x in back]))
 
 
 # ---------------------------------------------------------------------------------------------
 # C08 / C09 / C10
 # ---------------------------------------------------------------------------------------------
+
+def _c08_partial_writes(ctx: Ctx, cls: str, o: Opts, stmts) -> None:
+    from pyjelly.integrations.rdflib import serialize as rser
+
+    import rimpl
+
+    if not all(rimpl.rdf11(st) for st in stmts):
+        return
+    store = _to_store(stmts, cls)
+    outcome = {}
+    for delim in (True, False):
+        oo = Opts(**{**o.__dict__})
+        oo.delim, oo.gen, oo.star = delim, False, False
+
+        class Capped(io.RawIOBase):
+            def __init__(self):
+                super().__init__()
+                self.taken = bytearray()
+
+            def writable(self):
+                return True
+
+            def write(self, b):
+                k = min(len(b), 7)
+                self.taken += bytes(b[:k])
+                return k
+
+        sink = Capped()
+        try:
+            stream, opts = rimpl.make_stream(cls, oo)
+            rser.RDFLibJellySerializer(store).serialize(sink, options=opts, stream=stream)
+            line = impl.run_par("flat", False, "seek", bytes(sink.taken))
+            outcome[delim] = "wrote:" + line
+        except Exception:  # noqa: BLE001
+            outcome[delim] = "refused"
+    ctx.dist["paired_partial_writes"] += 1
+    if outcome[True] != outcome[False]:
+        ctx.fail("an output stream that takes only part of each write: the delimited and the non-delimited writer behave differently",
+                 dict(opts=o.describe(), delimited=outcome[True][:200], single=outcome[False][:200]))
+
 
 def check_C08(ctx: Ctx) -> None:
     from pyjelly.parse.ioutils import delimited_jelly_hint
@@ -1944,14 +2024,20 @@ def check_C08(ctx: Ctx) -> None:
         if pa != pb:
             ctx.fail("same content written in both modes parses differently", dict(delimited=out[True].hex(), single=out[False].hex()))
         # the same two outputs from a non-seekable source whose first raw read delivers everything (peek sees it all)
+        # ... and from sources whose first reads deliver the three header bytes in every possible split (2+, 1+1+, 1+2+, 1+1+1)
         for delim in (True, False):
             n = len(out[delim]) + 5
-            line = impl.run_par("flat", False, f"raw:{n}", out[delim])
-            reqs.append(f"par flat 0 1 raw:{n} {out[delim].hex()}")
-            resp.append(line)
-            if line != pa:
-                ctx.fail(f"{'delimited' if delim else 'non-delimited'} output read from a non-seekable source parses differently",
-                         dict(bytes=out[delim].hex(), got=line[:300], want=pa[:300]))
+            for sched in (str(n), "2,4096", "1,1,4096", "1,2,4096", "1"):
+                line = impl.run_par("flat", False, f"raw:{sched}", out[delim])
+                reqs.append(f"par flat 0 1 raw:{sched} {out[delim].hex()}")
+                resp.append(line)
+                ctx.dist["paired_outputs_from_non_seekable_sources"] += 1
+                if line != pa:
+                    ctx.fail(f"{'delimited' if delim else 'non-delimited'} output read from a non-seekable source (reads of {sched} bytes) parses differently",
+                             dict(bytes=out[delim].hex(), got=line[:300], want=pa[:300]))
+        # ... and written to an output stream that takes only part of what it is handed: the two modes behave alike
+        # (both refuse, or both files hold the same content)
+        _c08_partial_writes(ctx, cls, o, stmts)
     ctx.corr("HINT", reqs, resp)
     _c08_positioned_and_plugin(ctx, r)
     # reference-encoder streams: first frame empty or starting with a row, every first-frame / first-row length
@@ -2152,6 +2238,32 @@ def check_C09(ctx: Ctx) -> None:
                     ctx.dist["positioned_seekable"] += 1
                     if got != base:
                         ctx.fail(f"{label}: parses differently from an in-memory buffer of the same bytes", dict(bytes=b.hex(), source=label, got=got[:300], want=base[:300]))
+        # streams of tens of kilobytes (more than the parser's 8 KiB buffer arrives in ONE read) through non-seekable sources
+        # that are themselves buffered with a buffer larger or smaller than the parser's, and raw ones delivering 64 KiB at once
+        for i in range(ctx.n(3, 12)):
+            g = gen.G(r, n_prefixes=8, n_names=40)
+            s = None
+            while s is None or not s["delimited"]:
+                s = refenc.build_valid_stream(r, g, n_stmts=r.randint(400, 700))
+            b = s["bytes"]
+            base = impl.run_par("flat", False, "seek", b)
+            ctx.case(("large", len(b), b[:64].hex()), True, sample=dict(nbytes=len(b)))
+            for label, mk in (("raw, 64 KiB per read", lambda: impl.RawSource(b, [1 << 16], default=1 << 16)),
+                              ("raw, 2 then 64 KiB", lambda: impl.RawSource(b, [2, 1 << 16], default=1 << 16)),
+                              ("BufferedReader(buffer_size=65536) over 64 KiB reads", lambda: io.BufferedReader(impl.RawSource(b, [1 << 16], default=1 << 16), buffer_size=1 << 16)),
+                              ("BufferedReader(buffer_size=32768) over 20000-byte reads", lambda: io.BufferedReader(impl.RawSource(b, [20000], default=20000), buffer_size=1 << 15)),
+                              ("BufferedReader(buffer_size=512) over 64 KiB reads", lambda: io.BufferedReader(impl.RawSource(b, [1 << 16], default=1 << 16), buffer_size=512))):
+                evs, err = [], None
+                try:
+                    for ev in parse_jelly_flat(mk()):
+                        evs.append(ev)
+                except Exception as e:  # noqa: BLE001
+                    err = e
+                got = events_text(evs) + " " + ("end" if err is None else "!" + type(err).__name__)
+                ctx.dist["large_streams_non_seekable"] += 1
+                if got != base:
+                    ctx.fail(f"a {len(b)}-byte stream from a non-seekable source ({label}) parses differently from the in-memory buffer",
+                             dict(nbytes=len(b), source=label, got=got[-200:], want=base[-200:], bytes_head=b[:200].hex()))
         # the rdflib integration over the same kind of sources: parse_jelly_flat and the plugin behind Graph.parse(source=…)
         import rdflib
 
@@ -3219,7 +3331,7 @@ def _c12_rdflib_defaults(ctx: Ctx, r) -> None:
             if a != b:
                 ctx.fail(f"rdflib {name} with guessed options: two runs over the same statements write different bytes",
                          dict(entry=name, first=a.hex()[:300], second=b.hex()[:300]))
-    digest = hashlib.sha256(flat_bytes(3) + plugin_bytes(2) + grouped_bytes(2)).hexdigest()
+    digest = _c12_rdflib_defaults_digest()
     code = ("import sys; sys.path.insert(0, %r); import common, props, framework, hashlib; "
             "ctx = framework.Ctx('C12', 'quick', 0); print(props._c12_rdflib_defaults_digest())") % os.path.dirname(os.path.abspath(__file__))
     for hs in ("0", "7", "random"):
@@ -3250,7 +3362,20 @@ def _c12_rdflib_defaults_digest() -> str:
     g1(2).serialize(destination=out2, format="jelly")
     out3 = io.BytesIO()
     rser.grouped_stream_to_file((g1(j) for j in range(2)), out3)
-    return hashlib.sha256(out1.getvalue() + out2.getvalue() + out3.getvalue()).hexdigest()
+    # a one-triple Graph / Dataset with several bound namespaces, declarations ON: the declaration rows (and the lookup ids
+    # they create) must come in the store's own binding order, whatever the hash seed
+    from pyjelly.options import StreamParameters
+    from pyjelly.serialize.streams import SerializerOptions
+    outs = []
+    for store in (g1(5), rdflib.Dataset()):
+        if isinstance(store, rdflib.Dataset):
+            store.add((rdflib.URIRef("http://d/s"), rdflib.URIRef("http://d/p"), rdflib.Literal("o"), rdflib.URIRef("http://d/g")))
+        for j, label in enumerate(["zeta", "alpha", "mid", "b2", "x9", "omega"]):
+            store.bind(label, rdflib.URIRef(f"http://ns{j}.example/{label}#"))
+        o4 = io.BytesIO()
+        store.serialize(destination=o4, format="jelly", options=SerializerOptions(params=StreamParameters(namespace_declarations=True)))
+        outs.append(o4.getvalue())
+    return hashlib.sha256(out1.getvalue() + out2.getvalue() + out3.getvalue() + b"".join(outs)).hexdigest()
 
 
 def _c12_rdflib_serializers(ctx: Ctx, r) -> None:
@@ -3563,6 +3688,48 @@ def _tiny_prefix_tables(ctx: Ctx, r, n: int, integrations=("generic", "rdflib"))
                  dict(request=c["req"][:1500], referee=line[:1200], want=want[:1200]))
 
 
+def _tables_larger_than_names(ctx: Ctx, r, n: int, integrations=("generic", "rdflib")) -> None:
+    """Presets whose prefix and datatype tables are larger than the name table (8 / 16 / 16, 9 / 12 / 20) and streams that USE
+    more prefixes and datatypes than the name table has slots: ids above the name-table size must resolve on the reader (a
+    reader that sizes one table by another table's declared size fails here and nowhere else)."""
+    import rimpl
+
+    for i in range(n):
+        pn, pp, pd = r.choice([(8, 16, 16), (9, 12, 20), (8, 4096, 32)])
+        cls = r.choice("TQ")
+        o = Opts(fs=r.choice([1, 7, 250]), lt=0, gen=False, star=False, delim=r.random() < 0.8, pn=pn, pp=pp, pd=pd)
+        n_ns, n_dt = min(pp, 14), min(pd, 14)
+        spaces = [f"http://big{j}.example/ns#" for j in range(n_ns)]
+        dts = [f"urn:dt:big{j}" for j in range(n_dt)]
+        stmts = []
+        for j in range(max(n_ns, 2 * n_dt) + r.randint(0, 4)):
+            s_ = IRI(spaces[j % n_ns] + r.choice("ab"))
+            o_ = Literal(str(j), datatype=dts[(j // 2) % n_dt]) if j % 2 == 0 else IRI(spaces[(j * 5 + 1) % n_ns] + "c")
+            st = (s_, IRI(spaces[(j + 3) % n_ns] + "p"), o_)
+            stmts.append(Triple(*st) if cls == "T" else Quad(*st, r.choice([DefaultGraph, IRI(spaces[(j + 7) % n_ns] + "g")])))
+        integ = r.choice(integrations)
+        if integ == "rdflib":
+            data = [tuple(rimpl.to_rdflib(t) for t in st) for st in stmts]
+            req, resp, b = rimpl.run_serr(cls, o, data)
+        else:
+            resp, b = impl.run_ser_frames(cls, o, stmts, is_sink=False)
+        ctx.case(("tables-larger-than-names", integ, cls, o.token()), True)
+        ctx.dist[f"tables_larger_than_names:{integ}"] += 1
+        if not (resp.startswith("ok ") and resp.endswith(" end")) or not b:
+            ctx.fail(f"{integ} writer raised on statements that fit a {pn}/{pp}/{pd} preset ({resp[-40:]})", dict(opts=o.describe()))
+            continue
+        want = [stmt_text(gen.normalize_stmt(x)) for x in expected_events(stmts, cls)]
+        got_g = [stmt_text(x) for x in real_parse_flat(b)]
+        got_r = [e[1:] for e in rimpl.run_par_flat(False, "seek", b).split(" ") if e.startswith("S")]
+        line_r = rimpl.run_par_flat(False, "seek", b)
+        if [_norm_text(x) for x in got_g] != [_norm_text(x) for x in want]:
+            ctx.fail(f"{pn}/{pp}/{pd} tables, ids above the name-table size: the generic reader does not return what the {integ} writer wrote",
+                     dict(opts=o.describe(), bytes=b.hex()[:3000], got=got_g[-3:], want=want[-3:]))
+        elif not line_r.endswith(" end") or [_norm_text(x) for x in got_r] != [_norm_text(x) for x in want]:
+            ctx.fail(f"{pn}/{pp}/{pd} tables, ids above the name-table size: the rdflib reader does not return what the {integ} writer wrote",
+                     dict(opts=o.describe(), bytes=b.hex()[:3000], got=line_r[-200:], want=want[-3:]))
+
+
 def check_C20(ctx: Ctx) -> None:
     r = ctx.rng("reject")
     reqs, resp, metas = [], [], []
@@ -3866,6 +4033,16 @@ def check_C17(ctx: Ctx) -> None:
     for declared in (2**32, 2**36, 2**40, 2**62):
         for e in ("flat:seek", "flat:file", "grouped:file", "flat:raw:4096", "flat:raw:1", "rflat:file"):
             inputs.append(("hostile", e, _varint(declared) + body))
+    # lookup tables are capped at 4096 entries each: an options row declaring more — by one, by ten times, by a million — is
+    # refused whatever follows (the cap is part of the property, not only of the generated constants)
+    for field in ("max_name_table_size", "max_prefix_table_size", "max_datatype_table_size"):
+        for size in (4097, 50000, 1000000):
+            kw = dict(physical_type=1, max_name_table_size=8, max_prefix_table_size=8, max_datatype_table_size=8, version=1)
+            kw[field] = size
+            rows = [jelly.RdfStreamRow(options=jelly.RdfStreamOptions(**kw)), jelly.RdfStreamRow(triple=jelly.RdfTriple(s_bnode="a", p_bnode="b", o_bnode="c"))]
+            b = refenc.frames_to_bytes([jelly.RdfStreamFrame(rows=rows)], True)
+            for e in ("flat:seek", "grouped:seek", "rflat:seek", "rgraph:seek"):
+                inputs.append(("table-above-cap", e, b))
     # a length prefix that never ends: hundreds of kilobytes with the continuation bit set (a varint has at most ten bytes:
     # refusing is constant work; folding them into one integer is quadratic), at the start and after a valid frame
     for run in (b"\xff" * 600000, small + b"\xff" * 600000, b"\x80" * 600000):
@@ -3908,6 +4085,8 @@ def check_C17(ctx: Ctx) -> None:
         oc = out.rsplit(" ", 1)[-1]
         ctx.dist["outcome:" + (oc if oc.startswith("!") or oc in ("end", "HANG") else "end")] += 1
         raw = ":raw" in entry
+        if kind == "table-above-cap" and not oc.startswith("!"):
+            ctx.fail("a stream declaring a lookup table of more than 4096 entries was accepted", dict(entry=entry, bytes=b.hex(), outcome=out[-80:]))
         if out == "HANG" or ms > 5000:
             ctx.fail(f"parser did not terminate promptly ({ms} ms)", dict(entry=entry, bytes=b.hex() if len(b) < 20000 else b.hex()[:2000] + "...", n_bytes=len(b)),
                      known="C17-rdflib-rebind-quadratic" if kind == "rebind" and entry.startswith(("rgraph", "rgrouped")) else None)
@@ -4040,7 +4219,9 @@ def check_C02(ctx: Ctx) -> None:
     _c02_entry_points(ctx, r)
     _c02_datatype_wrap(ctx, r)
     _tiny_prefix_tables(ctx, r, ctx.n(60, 600), integrations=("rdflib",))
+    _tables_larger_than_names(ctx, r, ctx.n(12, 120), integrations=("rdflib",))
     _c02_shared_options_after_failure(ctx, r)
+    _c02_continue_after_rejection(ctx, r)
     # non-canonical lexical forms survive (repaired defect: normalize=False)
     from rdflib import XSD, Literal as RL, URIRef
     g = Graph()
@@ -4116,6 +4297,60 @@ def _c02_shared_options_after_failure(ctx: Ctx, r) -> None:
         if got != want:
             ctx.fail("an rdflib export that re-uses the options object of a failed export does not read back as its own graph",
                      dict(opts=o.describe(), how=how, got=got[:12], want=want[:12]))
+
+
+def _c02_continue_after_rejection(ctx: Ctx, r) -> None:
+    """The rdflib stream driven statement by statement (Stream.triple / quad), a statement the encoder cannot carry in the
+    middle (an rdflib Variable), the caller catches the error and carries on: what was written reads back, through the
+    rdflib reader, as exactly the statements that were accepted — or the stream refused to go on."""
+    import rdflib
+
+    import rimpl
+
+    for i in range(ctx.n(40, 400)):
+        cls = r.choice("TQ")
+        o = Opts(fs=r.choice([1, 3, 250]), lt=0, gen=False, star=False, delim=True, pn=16, pp=4, pd=4)
+        stmts = _rdf11_statements(r, cls, o, r.randint(3, 7))
+        if len(stmts) < 3:
+            continue
+        # the table-free shapes matter: a rejection after a blank-node subject leaves the stream usable
+        k = r.randrange(1, len(stmts))
+        bn = BlankNode("rej" + str(i % 3))   # subject of the refused statement AND of the one offered after it; new at that point
+        stream, _ = rimpl.make_stream(cls, o)
+        stream.enroll()
+        frames, accepted = [], []
+        for j, st in enumerate(stmts):
+            terms = [rimpl.to_rdflib(t) for t in st]
+            if j == k:
+                # the same subject as the statement before, then something Jelly cannot carry
+                bad = [rimpl.to_rdflib(bn), rdflib.Variable("v"), *terms[2:]]
+                try:
+                    f = stream.triple(bad) if cls == "T" else stream.quad(bad)
+                    if f is not None:
+                        frames.append(f)
+                except Exception:  # noqa: BLE001
+                    pass
+                terms[0] = rimpl.to_rdflib(bn)
+                st = type(st)(bn, *st[1:])
+            try:
+                f = stream.triple(terms) if cls == "T" else stream.quad(terms)
+            except Exception:  # noqa: BLE001  (a stream that refuses to go on is one of the two allowed outcomes)
+                break
+            accepted.append(st)
+            if f is not None:
+                frames.append(f)
+        last = stream.flow.to_stream_frame()
+        if last is not None:
+            frames.append(last)
+        b = impl.frames_bytes(frames, True)
+        ctx.case(("c02-continue", cls, o.token(), stmts_text(stmts), k), True)
+        ctx.dist["rdflib_continue_after_rejection"] += 1
+        line = rimpl.run_par_flat(False, "seek", b)
+        want = [_norm_text(stmt_text(gen.normalize_stmt(x))) for x in expected_events(accepted, cls)]
+        got = [_norm_text(e[1:]) for e in line.split(" ") if e.startswith("S")]
+        if not line.endswith(" end") or got != want:
+            ctx.fail("rdflib stream continued after a rejected statement: what was written does not read back as the accepted statements",
+                     dict(opts=o.describe(), rejected_at=k, got=got[:8], want=want[:8], ended=line[-30:]))
 
 
 def _c02_datatype_wrap(ctx: Ctx, r) -> None:
@@ -4436,7 +4671,50 @@ def check_C14(ctx: Ctx) -> None:
         if missing:
             ctx.fail("rdflib: bindings missing after Graph.parse", dict(request=req, missing=missing[:5]))
         ctx.dist["rdflib_bindings"] += len(want_ns)
+        # the same store with the option OFF (through the stream functions, and through the plugin with everything guessed):
+        # no declaration row may be written, and the statements are the same
+        o_off = Opts(**{**o.__dict__})
+        o_off.ns = False
+        req2, line2, b2 = rimpl.run_serr(cls, o_off, store)
+        reqs.append(req2)
+        resp.append(line2)
+        outs_off = [("stream functions", b2)] if line2.endswith(" end") and b2 else []
+        try:
+            outs_off.append(("plugin defaults", rimpl.plugin_serialize(store)))
+        except Exception as e:  # noqa: BLE001
+            ctx.fail(f"rdflib plugin with default options raised {type(e).__name__}", dict(request=req))
+        for label, bb in outs_off:
+            flat_off = rimpl.run_par_flat(False, "seek", bb)
+            ctx.dist["rdflib_option_off"] += 1
+            if any(e.startswith("N") for e in flat_off.split(" ")):
+                ctx.fail(f"rdflib ({label}): namespace declarations written although the option is off",
+                         dict(request=req2, declarations=[e for e in flat_off.split(" ") if e.startswith("N")][:4]))
+            if label == "stream functions" and [e for e in flat_off.split(" ") if e.startswith("S")] != [e for e in flat.split(" ") if e.startswith("S")]:
+                ctx.fail("rdflib: enabling namespace declarations changes the statements read back", dict(request=req))
     ctx.corr("SER-rdflib", reqs, resp)
+    # the generic sink's own parse(): statements AND bindings of the stream end up in the sink
+    for i in range(ctx.n(20, 200)):
+        cls = r.choice("TQ")
+        o = Opts(fs=r.choice([1, 250]), lt=0, gen=True, star=True, delim=r.random() < 0.8, ns=True, pn=16, pp=8, pd=8)
+        stmts = gen_fitting(r, cls, o, r.randint(1, 5))
+        g = gen.G(r)
+        bindings = list({p: i_ for p, i_ in [(r.choice(["", "ex", "a", "p1"]), g.iri()) for _ in range(r.randint(1, 4))]}.items())
+        line, b = impl.run_ser_frames(cls, o, mk_sink(stmts, bindings), is_sink=True)
+        if not line.endswith(" end") or not b:
+            continue
+        sk = GenericStatementSink()
+        try:
+            sk.parse(io.BytesIO(b))
+        except Exception as e:  # noqa: BLE001
+            ctx.fail(f"GenericStatementSink.parse raised {type(e).__name__}", dict(bytes=b.hex()))
+            continue
+        ctx.case(("sink.parse", b.hex()), True)
+        ctx.dist["generic_sink_parse"] += 1
+        if [(p, term_text(i_)) for p, i_ in sk.namespaces] != [(p, term_text(i_)) for p, i_ in bindings]:
+            ctx.fail("GenericStatementSink.parse: the sink's namespaces differ from the declarations in the stream",
+                     dict(bytes=b.hex(), got=[(p, term_text(i_)) for p, i_ in sk.namespaces], want=[(p, term_text(i_)) for p, i_ in bindings]))
+        if [stmt_text(x) for x in sk.store] != [stmt_text(x) for x in expected_events(stmts, cls)]:
+            ctx.fail("GenericStatementSink.parse: the sink's statements differ from the stream", dict(bytes=b.hex()))
 
 
 def check_C15(ctx: Ctx) -> None:
